@@ -900,7 +900,7 @@ def _play2(case, ctx, b, scratch, root, W):
 
 # ------------------------------------------------------------------------------ plan / health
 def plan(tier):
-    n = int(os.environ.get('C17_N', 0)) or (32 if tier == 'quick' else 5000)     # C17_N: ad-hoc exploration sizes
+    n = int(os.environ.get('C17_N', 0)) or (32 if tier == 'quick' else 2500)     # C17_N: ad-hoc exploration sizes
     return [{'n': n} for _ in range(16)]
 
 
